@@ -288,6 +288,15 @@ fn nest_strategy() -> impl Strategy<Value = String> {
 }
 
 const SPECIALS: &[&str] = &[
+    // language features outside of the program generator: struct templates, inheritance, function-local statics, typedefs
+    "template<typename T> struct Box { T value; T twice() { return value + value; } };\nint f(int k) { Box<int> b; b.value = k; Box<float> c; c.value = 0.5; return b.twice() + (int)c.twice(); }\n",
+    "template<typename T> struct Pair { T a; T b; };\nStructuredBuffer<Pair<float> > g;\n[numthreads(1, 1, 1)] void cs() { g[0].a; }\nPipeline P { ComputeShader = cs; }\n",
+    "struct Base { int a; float b; };\nstruct Derived : Base { int c; int sum() { return a + c; } };\nint f(int k) { Derived d; d.a = k; d.b = 1.5; d.c = 2; Base b = (Base)d; return d.sum() + b.a; }\n",
+    "struct Base { int a; };\nstruct Mid : Base { int b; };\nstruct Leaf : Mid, Base { int c; };\nint f(Leaf l) { return l.a + l.b + l.c; }\n",
+    "struct B { int a; int get() { return a; } };\nstruct D : B { int c; };\nint f(D d) { return d.c; }\n",
+    "int f(int k) { static int counter = 0; counter += k; static const float table[2] = { 1.0, 2.0 }; return counter + (int)table[k & 1]; }\n",
+    "typedef float3 Vec;\ntypedef int Arr4[4];\ntypedef Arr4 Grid[2];\nint total(Arr4 xs) { int s = 0; for (int i = 0; i < 4; i++) { s += xs[i]; } return s; }\nint f() { Grid g = { { 1, 2, 3, 4 }, { 5, 6, 7, 8 } }; Vec v = Vec(1, 2, 3); return total(g[1]) + (int)v.y; }\n",
+
     "cbuffer CB { float4 a : packoffset(c0); float b : packoffset(c1.y); }\n",
     "cbuffer CB : register(b0, space4) { float4 a; }\nvoid f() { a; }\nPipeline P { ComputeShader = f; }\n",
     "[[rssl::bindless]] cbuffer CB { float4 a; }\n",
